@@ -301,3 +301,23 @@ V("c06-writer-header", "C06", DS, "                \"Mod(Z) (ohm)\",", "        
 V("c06-writer-header-bad", "C06", DS, "                \"Re(Z) (ohm)\",", "                \"Z real (ohm)\",", "silent")
 V("c06-writer-header-bad2", "C06", DS, "                \"Im(Z) (ohm)\",", "                \"Z (imag.) (ohm)\",", "fire", "to_dataframe:headers")
 V("c06-benign-guard-form", "C06", DS, "    decreasing_f: bool = len(frequency) > 1 and frequency[0] > frequency[1]", "    decreasing_f: bool = (frequency[0] > frequency[1]) if len(frequency) >= 2 else False", "silent")
+V("c11-benign-merged-branches", "C11", ZREC, "        if admittance:\n            ln_modulus.append(-(-2 / pi * integral - gamma * derivative))\n        else:\n            ln_modulus.append(2 / pi * integral + gamma * derivative)",
+  "        ln_modulus.append(2 / pi * integral + gamma * derivative)", "silent")
+V("c13-benign-hoisted-log", "C13", "analysis/drt/mrq_fit.py", "                R / (W * sqrt(pi)) * exp(-((ln(tau / tau_0) / W) ** 2))", "                R / (W * sqrt(pi)) * exp(-(((ln(tau) - ln(tau_0)) / W) ** 2))", "silent")
+V("c19-merged-no-rebind", "C19", CFIT, "            fit: FitResult = fit_circuit(\n                circuit,\n                data=data,\n                method=args.method,\n                weight=args.weight,\n                max_nfev=args.max_nfev,\n                num_procs=args.num_procs,\n                timeout=args.timeout,\n            )\n            for _ in range(0, args.num_refinements):\n                fit = fit_circuit(\n                    fit.circuit,",
+  "            fit: FitResult\n            start = circuit\n            for _ in range(0, args.num_refinements + 1):\n                fit = fit_circuit(\n                    start,", "fire", "refinement")
+VM("c19-benign-merged-refinement", "C19", [(CFIT, "            fit: FitResult = fit_circuit(\n                circuit,\n                data=data,\n                method=args.method,\n                weight=args.weight,\n                max_nfev=args.max_nfev,\n                num_procs=args.num_procs,\n                timeout=args.timeout,\n            )\n            for _ in range(0, args.num_refinements):\n                fit = fit_circuit(\n                    fit.circuit,",
+  "            fit: FitResult\n            start = circuit\n            for _ in range(0, args.num_refinements + 1):\n                fit = fit_circuit(\n                    start,"),
+  (CFIT, "                    timeout=args.timeout,\n                )\n            clear_default_handler_output()", "                    timeout=args.timeout,\n                )\n                start = fit.circuit\n            clear_default_handler_output()")], "silent")
+VM("c19-merged-carried-over", "C19", [(CFIT, "            fit: FitResult = fit_circuit(\n                circuit,\n                data=data,\n                method=args.method,\n                weight=args.weight,\n                max_nfev=args.max_nfev,\n                num_procs=args.num_procs,\n                timeout=args.timeout,\n            )\n            for _ in range(0, args.num_refinements):\n                fit = fit_circuit(\n                    fit.circuit,",
+  "            fit: FitResult\n            for _ in range(0, args.num_refinements + 1):\n                fit = fit_circuit(\n                    circuit,"),
+  (CFIT, "                    timeout=args.timeout,\n                )\n            clear_default_handler_output()", "                    timeout=args.timeout,\n                )\n                circuit = fit.circuit\n            clear_default_handler_output()")], "fire", "carried-over")
+
+# ---------------------------------------------------------------- C10 (containment clause)
+KALG = "analysis/kramers_kronig/algorithms/__init__.py"
+V("c10-filter-dropped", "C10", KALG, "    tests = [t for t in tests if lower_limit <= t.num_RC <= upper_limit]\n", "    tests = [t for t in tests if lower_limit <= t.num_RC]\n", "fire", "_suggest_using_default:filter")
+V("c10-candidate-from-all", "C10", KALG, "            suggested_test = [t for t in tests if t.num_RC == num_RC][0]\n            break\n\n    return (suggested_test, relative_scores, lower_limit, upper_limit)",
+  "            suggested_test = [t for t in kwargs.get(\"all_tests\", tests) if t.num_RC == num_RC][0]\n            break\n\n    return (suggested_test, relative_scores, lower_limit, upper_limit)", "fire", "candidate-source")
+V("c10-limits-widened-after", "C10", KALG, "    return (suggested_test, relative_scores, lower_limit, upper_limit)", "    upper_limit = min(upper_limit, suggested_test.num_RC - 1) if limit_delta < 0 else upper_limit\n    return (suggested_test, relative_scores, lower_limit, upper_limit)", "fire", "_suggest_using_default:return")
+V("c10-benign-sort-key", "C10", KALG, "    suggested_test: KramersKronigResult = sorted(\n        tests,\n        key=lambda t: relative_scores.get(t.num_RC, 0.0),\n        reverse=True,\n    )[0]",
+  "    suggested_test: KramersKronigResult = sorted(\n        tests,\n        key=lambda t: -relative_scores.get(t.num_RC, 0.0),\n    )[0]", "silent")
